@@ -920,6 +920,32 @@ func genRetryLoop(repo, out string) {
 		})
 	}
 	g.def("sendBatch_immediateGuard", "Option (String × Int)", guard)
+	// every statement that writes one of the retry counters (a reset of a counter defeats the bound)
+	for _, fv := range [][2]string{{"SendRPC", "serverErrorCount"}, {"SendBatch", "immediateRetries"}} {
+		var writes []string
+		if fd := findMethod(f, "client", fv[0]); fd != nil {
+			ast.Inspect(fd.Body, func(n ast.Node) bool {
+				switch x := n.(type) {
+				case *ast.AssignStmt:
+					for i, l := range x.Lhs {
+						if id, ok := l.(*ast.Ident); ok && id.Name == fv[1] {
+							rhs := "?"
+							if i < len(x.Rhs) {
+								rhs = exprStr(x.Rhs[i])
+							}
+							writes = append(writes, x.Tok.String()+rhs)
+						}
+					}
+				case *ast.IncDecStmt:
+					if id, ok := x.X.(*ast.Ident); ok && id.Name == fv[1] {
+						writes = append(writes, x.Tok.String())
+					}
+				}
+				return true
+			})
+		}
+		g.def(strings.ToLower(fv[0][:1])+fv[0][1:]+"_"+fv[1]+"_writes", "List String", leanList(writes))
+	}
 	g.finish(out)
 }
 
